@@ -326,6 +326,8 @@ func (v *VLA) Unmarshal(payload []byte) (int, error) {
 	ctx := &vlaUnmarshalingContext{
 		payload: payload,
 	}
+	v.ActiveSpatialLayer = nil
+	v.HasResolutionAndFramerate = false
 
 	err := v.unmarshalSpatialLayers(ctx)
 	if err != nil {
